@@ -203,7 +203,13 @@ func runC06(c *kernel.Ctx) {
 			}
 			c.Stats.SimTime += d
 			c.Logf("advance %v", d)
-			lastQ.ok = false
+			// half of the time the paging goes on after the advance: the message whose id is the continuation
+			// point may have expired meanwhile (a client that pages slowly)
+			if t.Chance(1, 2) {
+				lastQ.ok = false
+			} else if lastQ.ok {
+				c.Probe("continuation-after-clock-advance")
+			}
 		case k < 18: // fresh query
 			contract := contracts[t.Choose(2)]
 			d := t.Range(1, 4)
